@@ -223,13 +223,14 @@ def specStep (redis : Bool) (ttl : Nat) (st : SpecSt) (c : SCmd) (res : String) 
     { st with holders := if already then st.holders else (c.c, st.now) :: st.holders, viol := st.viol ++ v,
               overlap := st.overlap || (!already && !others.isEmpty), queued := st.queued.filter (· != c.c) }
   else if isAcq && (res == "not-obtained" || res == "locked" || res == "timeout") then
-    -- etcd queues waiters: a key of an earlier, still blocked waiter legitimately refuses a later client
-    let behindQueue := !redis && !(st.queued.filter (· != c.c)).isEmpty
+    -- a client blocked in Lock may get the key at any moment (etcd: its queued key is older; redis: its
+    -- next retry): refusing a later client then is legitimate
+    let behindQueue := !(st.queued.filter (· != c.c)).isEmpty
     let v1 := if liveOthers.isEmpty && !behindQueue && c.op != "lockasync" then ["C18:refused-when-free"] else []
     let v2 := if c.op == "trylock" && slow then ["C18:trylock-waited"] else []
     { st with viol := st.viol ++ v1 ++ v2, queued := st.queued.filter (· != c.c) }
   else if isAcq && res == "blocked" then
-    let behindQueue := !redis && !(st.queued.filter (· != c.c)).isEmpty
+    let behindQueue := !(st.queued.filter (· != c.c)).isEmpty
     { st with viol := st.viol ++ (if liveOthers.isEmpty && !behindQueue then ["C18:blocked-when-free"] else []),
               queued := c.c :: st.queued }
   else if c.op == "unlock" then { st with holders := st.holders.filter (·.1 != c.c) }
@@ -279,6 +280,12 @@ def handleSched (j : Json) : Json :=
   -- etcd schedules in which a holder's lease expired without the script revoking it (the machine
   -- stalled for a whole TTL, three times in a row) say nothing about the code: not judged
   if jbool (jget impl "perturbed") then verdict id true (jstrs model) [] "perturbed" true else
+  -- three runs in a row violated the schedule's real-time assumptions (calls that do not wait by
+  -- design took > 300 ms, client-side deadlines hit): mutual exclusion is still judged on the results,
+  -- outcome equality and the timing clauses are not
+  if jbool (jget impl "timing_off") then
+    let v := ((go {} cmds ires islow).viol.eraseDups).filter (· == "C18:two-holders-within-lease")
+    verdict id true (jstrs model) v "timing-off" true else
   verdict id agree (jstrs model) fin.viol.eraseDups cls (!contended && !fin.overlap && !hasLoss)
 
 end Oracle.Lock
